@@ -920,3 +920,14 @@ def m_slice_concat_u8(engine, ctx, args, callee, frame):
         n = ctx.concretize(b.len, 4096, "concat part length")
         out += [b.byte(i) for i in range(n)]
     return M.bytes_from_ints(out)
+
+
+@model(r"^<(std::collections::)?(hash_set::|btree_set::)?(HashSet|BTreeSet|IndexSet)<.*> as PartialEq>::(eq|ne)$")
+def m_set_eq(engine, ctx, args, callee, frame):
+    """set equality: same cardinality and every element of one contained in the other (elements compared through
+    the engine's key equality, which forks on symbolic keys)"""
+    a, b = deref(args[0]), deref(args[1])
+    if not (isinstance(a, M.SetV) and isinstance(b, M.SetV)):
+        raise Untranslatable("set == on %s / %s" % (type(a).__name__, type(b).__name__))
+    eq = len(a.items) == len(b.items) and all(b.contains(engine, ctx, x) for x in a.items)
+    return (not eq) if callee.endswith("::ne") else eq
